@@ -77,6 +77,12 @@ def make_nm(init):
         nm.u = float(F(init["u_now"]))
     for k in ctor:
         setattr(nm, k, kw[k])
+    if init.get("atol") is not None or init.get("rtol") is not None:
+        # call-time keywords of alpha_mart / betting_mart: `test.test(x, atol=..., rtol=...)` (tolerances of the masks
+        # "null mean is 0 / is u / the product vanished"); every later call of this object's test carries them
+        ck = {k: float(F(init[k])) for k in ("atol", "rtol") if init.get(k) is not None}
+        bound = nm.test
+        nm.test = lambda x, **kw_: bound(x, **{**ck, **kw_})
     return nm
 
 
@@ -234,7 +240,8 @@ def fragile(case, ir, mr):
     if case["op"] != "test":
         return False
     u = F(init["u_now"] if init.get("u_now") is not None else init["u"])
-    atol = 2 * EPS
+    atol = F(init["atol"]) if init.get("atol") is not None else 2 * EPS
+    rtol_ = F(init["rtol"]) if init.get("rtol") is not None else F(1, 10 ** 6)
     exact = exact_inputs(case)
     ms = [F(v) for v in mr.get("m", [])]
     for m in ms:
@@ -245,7 +252,7 @@ def fragile(case, ir, mr):
         d = abs(u - m)
         if not exact and d == 0:
             return True
-        edge = atol + F(1, 10 ** 6) * abs(m)
+        edge = atol + rtol_ * abs(m)
         if d != 0 and abs(d - edge) <= F(1, 10 ** 9) * max(abs(m), 1):
             return True
         if d != 0 and d < F(1, 10 ** 9):
@@ -262,7 +269,7 @@ def fragile(case, ir, mr):
             return True                      # float overflow region (not modelled)
         if a == 0 and not exact:
             return True                      # an exactly vanishing product is float noise (not 0) in the code
-        if a != 0 and abs(a * (1 - F(1, 10 ** 5)) - atol) <= F(1, 10 ** 6) * atol:
+        if a != 0 and atol != 0 and abs(a * (1 - F(1, 10 ** 5)) - atol) <= F(1, 10 ** 6) * atol:
             return True
         if a != 0 and a < F(1, 10 ** 300):
             return True                      # float underflow region
@@ -913,6 +920,34 @@ def gen_reassigned(rng, tier):
     """a test object whose keyword parameters (g, eta, lam, c, d, f, minsd, ...) are re-assigned as attributes after
     construction, possibly after the object has been used once and possibly together with `test.u`: the run must be
     that of a fresh object built with the final values (init["kw"] = the values in force)"""
+    if rng.chance(0.3):
+        # no keyword at all for the alternative / the bet (the defaults depend on u), an explicit estimator or bet
+        # handed to the constructor whatever the test, one use, then `test.u` lowered or raised: the defaults in force
+        # are those of the CURRENT u
+        for _ in range(8):
+            c = gen_case(rng, tier, "test")
+            init = c["init"]
+            if c["stream"] == "malformed" or init["test"] in ("kaplan_kolmogorov", "kaplan_markov", "kaplan_wald"):
+                continue
+            if init["test"] == "wald_sprt" or rng.chance(0.3):
+                init["estim"] = init["estim"] or "shrink_trunc"
+            # (an explicit fixed_alternative_mean / fixed_bet needs its eta / lam keyword: the constructor sets the
+            # defaults only when no estimator / bet is named)
+            drop = set()
+            if init["estim"] != "fixed_alternative_mean":
+                drop.add("eta")
+            if init["bet"] != "fixed_bet":
+                drop.add("lam")
+            init["kw"] = {k: v for k, v in init["kw"].items() if k not in drop}
+            u, t = F(init["u"]), F(init["t"])
+            un = rng.choice([max(u * F(1, 2), t * F(9, 8)), max(u * F(3, 4), t * F(9, 8)), u * F(5, 4), u * 2])
+            init["u_now"] = S(un)
+            init["pre_call"] = True
+            c["x"] = [S(min(F(v), un)) for v in c["x"]]
+            c.pop("int_dtype", None)
+            c["stream"] = "reassigned-u:" + c["stream"]
+            return c
+        return None
     for _ in range(8):
         c = gen_case(rng, tier, "test")
         init = c["init"]
@@ -997,10 +1032,30 @@ def gen_long(rng, tier):
     return {"op": op, "init": init, "x": [S(v) for v in x], "stream": f"long:{estim or bet}:{'10k' if n > 10000 else '1k'}"}
 
 
+def gen_tol(rng, tier):
+    """alpha_mart / betting_mart called with the optional keywords `atol`, `rtol` (tolerances of the three masks),
+    on samples that drive the null mean exactly to 0 or to u, make the total hit N t, or are ordinary:
+    zero tolerances (the masks must still catch the exact hits), tiny ones, and wide ones"""
+    for _ in range(8):
+        c = gen_case(rng, tier, "test", force_test=rng.choice(["alpha_mart", "betting_mart"]))
+        if c["stream"] in ("malformed", "x==t"):
+            continue
+        if c["stream"] == "regular" and rng.chance(0.6):
+            continue
+        c["init"]["atol"] = S(rng.choice([F(0), F(0), F(1, 10 ** 12), F(1, 10 ** 6), F(1, 8)]))
+        if rng.chance(0.7):
+            c["init"]["rtol"] = S(rng.choice([F(0), F(0), F(1, 10 ** 6), F(1, 100), F(1, 4)]))
+        c["stream"] = "tol:" + c["stream"]
+        return c
+    return None
+
+
 def gen_extra(rng, tier):
     r = rng.random()
     if r < 0.05:
         return gen_long(rng, tier)
+    if r < 0.20:
+        return gen_tol(rng, tier)
     r = rng.random()
     if r < 0.18:
         return gen_reassigned(rng, tier)
@@ -1082,6 +1137,10 @@ def valid_for_wellformed(case):
         return False
     if init["test"] == "kaplan_kolmogorov" and init["N"] is None:
         return False
+    if init.get("atol") is not None and not (0 <= F(init["atol"]) < F(1, 2)):
+        return False
+    if init.get("rtol") is not None and not (0 <= F(init["rtol"])):
+        return False
     return True
 
 
@@ -1159,6 +1218,10 @@ def oracle_c12(case, ir):
     xa = xs(case)
     T = F(1)
     dead = False
+    # tolerances of the masks (call-time keywords; defaults 2 eps and 1e-6): indices inside a mask's band, or near it,
+    # are not "regular" and are left to the correspondence
+    atol_ = F(init["atol"]) if init.get("atol") is not None else 2 * EPS
+    rtol_ = F(init["rtol"]) if init.get("rtol") is not None else F(1, 10 ** 6)
     if test in ("alpha_mart", "betting_mart", "wald_sprt"):
         mu = null_means(N, t, x)
         if test == "alpha_mart":
@@ -1190,7 +1253,8 @@ def oracle_c12(case, ir):
             if math.isnan(pj) or math.isinf(pj):
                 return None
             pj = F(pj)
-            regular = 0 < m < u and abs(m) > F(1, 10 ** 6) and abs(u - m) > F(1, 10 ** 4) * abs(m) + F(1, 10 ** 9)
+            regular = 0 < m < u and abs(m) > max(F(1, 10 ** 6) * u, 10 * atol_) and \
+                abs(u - m) > 100 * (atol_ + rtol_ * abs(m)) + F(1, 10 ** 9) * u
             if m > u + F(1, 10 ** 6) * u and not dead:
                 if ir["hist"][j] != 1.0:
                     return {"what": f"null mean {float(m)} > u at index {j} but p_j = {ir['hist'][j]!r} (should be 1)"}
@@ -1205,7 +1269,7 @@ def oracle_c12(case, ir):
             else:
                 fac = 1 + pj * (xj - m)
             T *= fac
-            if abs(T) < F(1, 10 ** 12):
+            if abs(T) < max(F(1, 10 ** 12), 10 * atol_):
                 dead = True
                 continue
             # C12 is the identity history = min(1, 1/T_j), whatever the sign of T_j: a negative product (possible only
